@@ -365,6 +365,9 @@ class FakeGateway:
             raise OSError(113, "No route to host (injected)")                 # an OSError that is not a ConnectionError
         if outcome == "timeout":
             raise TimeoutError("connect timed out (injected)")
+        if outcome == "dns":
+            import socket
+            raise socket.gaierror(-2, "Name or service not known (injected)")     # an OSError whose errno is not an errno code
         if outcome == "noport":
             import serial
             raise serial.SerialException(2, "could not open port (injected)")
